@@ -737,9 +737,11 @@ impl AssemblyCode {
                             }
                         }
                         AsmMnemonic::TXA => {
+                            flags = FlagsState::A;
                             accumulator = x_register.clone();
                         }
                         AsmMnemonic::TYA => {
+                            flags = FlagsState::A;
                             accumulator = y_register.clone();
                         }
                         AsmMnemonic::STA | AsmMnemonic::STX | AsmMnemonic::STY => {
@@ -763,7 +765,11 @@ impl AssemblyCode {
                         | AsmMnemonic::SBC
                         | AsmMnemonic::EOR
                         | AsmMnemonic::AND
-                        | AsmMnemonic::ORA => accumulator = None,
+                        | AsmMnemonic::ORA => {
+                            // N and Z now describe the result, not X or Y anymore
+                            flags = FlagsState::A;
+                            accumulator = None;
+                        }
                         AsmMnemonic::LSR | AsmMnemonic::ASL | AsmMnemonic::ROL | AsmMnemonic::ROR => {
                             flags = FlagsState::Unknown;
                             accumulator = None;
@@ -781,7 +787,14 @@ impl AssemblyCode {
                                 }
                             }
                         }
-                        AsmMnemonic::PLA | AsmMnemonic::PHA => accumulator = None,
+                        AsmMnemonic::PLA => {
+                            flags = FlagsState::A;
+                            accumulator = None;
+                        }
+                        AsmMnemonic::PHA => accumulator = None,
+                        AsmMnemonic::PLP => {
+                            flags = FlagsState::Unknown;
+                        }
                         AsmMnemonic::JSR | AsmMnemonic::JMP => {
                             flags = FlagsState::Unknown;
                             accumulator = None;
